@@ -333,6 +333,45 @@ def canary_replay(chk: Check, g, rng):
     chk.note(f"canary: deviating replay detected ({mism[0][0].get('clause')})")
 
 
+def complex_scale_probe(chk: Check):
+    """`scale (float | complex)`: with a complex scale the normalised attribute is complex and its p-norm along the chosen
+    dimensions equals |scale| (3+4j -> 5); zero vectors stay zero.  (The traces use real scales: a cast back to the
+    attribute's real dtype is invisible there.)"""
+    import torch
+    from inferno.neural import Normalization
+    n = 0
+    for scale in (3 + 4j, 2j, -1.5 + 2j):
+        for order in (1, 2, float("inf")):
+            for dim in (-1, 0, None, (0, 1)):
+                lin = torch.nn.Identity()              # the attribute is a buffer (a Parameter cannot change its dtype)
+                w0 = torch.tensor([[1.0, -2.0, 0.5], [0.0, 0.0, 0.0], [3.0, 1.0, -1.0], [0.25, 0.5, 4.0]])
+                if dim in (0, None, (0, 1)):
+                    w0[1] = torch.tensor([0.5, -0.5, 2.0])
+                lin.register_buffer("weight", w0)
+                before = lin.weight.detach().clone()
+                n += 1
+                try:
+                    h = Normalization(lin, "weight", order, scale, dim)
+                    h.register()
+                    lin(torch.zeros(1, 3))
+                    x = lin.weight.detach()
+                    dims = tuple(range(x.ndim)) if dim is None else dim
+                    got = torch.linalg.vector_norm(x.to(torch.complex128), ord=order, dim=dims, keepdim=True).real
+                    zero = (before == 0).all(dim=dims, keepdim=True)
+                    ok = bool(torch.where(zero, (x == 0).all(dim=dims, keepdim=True), (got - abs(scale)).abs() <= 1e-5 * abs(scale)).all())
+                    h.deregister()
+                except Exception as ex:
+                    chk.violation({"clause": "Raised", "site": "complex-scale", "exc": type(ex).__name__},
+                                  {"scale": str(scale), "order": str(order), "dim": str(dim), "error": repr(ex)})
+                    continue
+                if not ok:
+                    chk.violation({"clause": "NormEqualsScaleMagnitude", "site": "complex-scale"},
+                                  {"scale": str(scale), "order": str(order), "dim": str(dim), "specified_norm": abs(scale),
+                                   "observed_norms": [float(v) for v in got.reshape(-1).tolist()]})
+    chk.evaluations += n
+    chk.note(f"complex scales of the Normalization hook: {n} configurations, p-norm = |scale|")
+
+
 def run(tier: str, seed: int) -> int:
     chk = Check(PID, tier, seed)
     rng = random.Random(seed)
@@ -394,6 +433,7 @@ def run(tier: str, seed: int) -> int:
     accepted = [t for t in withcall if not t["hdr"]["waive"]]
     canary_trace(chk, (accepted or withcall)[0], clean=bool(accepted))
     canary_replay(chk, first, rng)
+    complex_scale_probe(chk)
     return chk.finish()
 
 
